@@ -95,6 +95,9 @@ def c18_execute(spec, workdir):
             vspec = dict(spec, world=spec["others"][res["violation"]["tenant"] - 1]["world"])
         res["violation"]["signature"] = oracle_c18.signature(vspec, res["violation"])
     res["ilv"] = _ilv_hash(spec)
+    reqs = [op for op in spec["ops"] if op["op"] == "req"][:3]
+    res["sets"] = {"request_prefixes_len3": [hashlib.sha256(repr([("+".join(f[0] for f in op["fields"]), bool(op.get("single")),
+                                                                 op["axis"], op["input"]) for op in reqs]).encode()).hexdigest()[:12]]}
     st = res["stats"]
     # non-trivial: at least two requests reached the data layer and missed the request cache
     res["nontrivial"] = (st.get("req_ok", 0) + st.get("req_exit", 0) + st.get("req_exc", 0)
@@ -241,8 +244,10 @@ def c11_gen(seed, run, tier):
             ops.append({"op": "req", "fields": orng.choice([[["Obs"], ["Fcst"]], [["Obs"]], [["Fcst"]]]),
                         "single": False, "input": orng.randrange(n_inputs), "axis": axis,
                         "index": {"wrap": orng.randrange(0, 8)}})
-        elif r < 0.80:
+        elif r < 0.76:
             ops.append({"op": "labels", "axis": orng.choice(["Time", "Year", "Month", "Week", "Day", "Location", "Lat", "Elev"])})
+        elif r < 0.82:
+            ops.append({"op": "cli", "axis": orng.choice(C11_AXES[:15])})
         elif r < 0.93:
             inst = _instants(orng, 40)
             # a second array with the same length, first and last element but another interior
@@ -295,7 +300,6 @@ def c11_execute(spec, workdir):
     st = res["stats"]
     res["nontrivial"] = bool(st.get("probe:multi_slice_sweeps") or st.get("probe:conv_days") or st.get("probe:bucket_instants"))
     ts = spec["world"]["universe"]["times"]
-    res["sim_time"] = float(sum(abs(op.get("delta", 0)) for op in spec["ops"] + spec.get("pre_ops", []) + spec.get("mid_ops", []) if op.get("op") == "clock"))
     res["stats"]["calendar_span_days"] = (max(ts) - min(ts)) // 86400 if ts else 0
     return res
 
@@ -417,7 +421,7 @@ PROPS = {
             "runs": {"quick": 3000, "thorough": 60000},
             "expected_probes": ["probe:sweeps_decoded", "probe:multi_slice_sweeps", "probe:jump_inside_sweep",
                                 "probe:label_checks", "probe:bucket_instants", "probe:conv_days",
-                                "probe:weighted_mean_checks", "probe:sibling_dataset_runs", "probe:bucket_collision_arrays",
+                                "probe:weighted_mean_checks", "probe:cli_count_tables", "probe:sibling_dataset_runs", "probe:bucket_collision_arrays",
                                 "tz_jump", "clock_jump"],
             "rule": "one evaluation = one seeded simulated session on a world whose initialisation times cluster around "
                     "year/month/week/day boundaries, leap days and 1970-2100 extremes: sweeps over every slice of an axis "
